@@ -1437,8 +1437,24 @@ pub fn run(ctx: &Ctx) {
             // no variance at all: PCA has nothing to return; the property only forbids a crash
             for k in 1..=p {
                 for whiten in [false, true] {
-                    if let Err(pn) = fit_layout(&x, Layout::C, k, whiten) {
-                        bail!("C18/fit/panic", {"data": desc, "n": n, "p": p, "k": k, "whiten": whiten, "panic": pn});
+                    match fit_layout(&x, Layout::C, k, whiten) {
+                        Err(pn) => bail!("C18/fit/panic", {"data": desc, "n": n, "p": p, "k": k, "whiten": whiten, "panic": pn}),
+                        // a model that is returned publishes numbers: the variances of data without
+                        // any spread are (numerically) zero, never NaN or infinite, and so is
+                        // everything derived from them
+                        Ok(Ok(m)) => {
+                            let ev = m.explained_variance();
+                            let evr = m.explained_variance_ratio();
+                            let sv = m.singular_values();
+                            ensure!(ev.iter().chain(evr.iter()).chain(sv.iter()).chain(m.components().iter()).all(|v| v.is_finite()),
+                                "C18/degenerate/non-finite-accessor", {"data": desc, "n": n, "p": p, "k": k, "whiten": whiten,
+                                 "explained_variance": ev.iter().map(|v| format!("{v}")).collect::<Vec<_>>(),
+                                 "explained_variance_ratio": evr.iter().map(|v| format!("{v}")).collect::<Vec<_>>()});
+                            ensure!(ev.iter().all(|v| *v >= 0.0 && *v <= 1e-12) && evr.iter().all(|v| (0.0..=1.0 + 1e-12).contains(v)),
+                                "C18/degenerate/variance-of-constant-data", {"data": desc, "n": n, "p": p, "k": k,
+                                 "explained_variance": ev.to_vec(), "explained_variance_ratio": evr.to_vec()});
+                        }
+                        Ok(Err(_)) => {}
                     }
                 }
             }
